@@ -7,6 +7,7 @@ import (
 	"sync"
 	"sync/atomic"
 	"testing"
+	"testing/synctest"
 	"time"
 
 	"github.com/cbeuw/Cloak/internal/common"
@@ -39,7 +40,11 @@ type c19Case struct {
 	// CloseStormMs > 0: at that moment the server closes every stream of the user at once (the proxied endpoints hang
 	// up): the closing notices are traffic to the user like any other
 	CloseStormMs int `json:",omitempty"`
-	Writers      []c19Writer
+	// EarlierRx/EarlierTx > 0: the user has been active before on this server, with these rates configured; all its
+	// sessions ended, an administrator then set the rates of this case, and now the user comes back
+	EarlierRx int64 `json:",omitempty"`
+	EarlierTx int64 `json:",omitempty"`
+	Writers   []c19Writer
 }
 
 type c19Ev struct {
@@ -103,6 +108,24 @@ func c19Run(t *testing.T) func(sc c19Case) (vk.Result, error) {
 			mkCfg := func() mux.SessionConfig {
 				obfs, _ := mux.MakeObfuscator(mux.EncryptionMethodPlain, key)
 				return mux.SessionConfig{Obfuscator: obfs, MsgOnWireSizeLimit: appDataMaxLength, Unordered: sc.Unordered}
+			}
+			if sc.EarlierRx > 0 && sc.EarlierTx > 0 {
+				fm.users[a].UpRate, fm.users[a].DownRate = sc.EarlierRx, sc.EarlierTx
+				u, err := panel.GetUser(uid)
+				if err != nil {
+					verr = fmt.Errorf("harness: GetUser: %v", err)
+					return
+				}
+				if _, _, err = u.GetSession(9999, mkCfg()); err != nil {
+					verr = fmt.Errorf("harness: GetSession: %v", err)
+					return
+				}
+				u.CloseSession(9999, "")
+				synctest.Wait()
+				fm.mu.Lock()
+				fm.users[a].UpRate, fm.users[a].DownRate = sc.RxRate, sc.TxRate
+				fm.mu.Unlock()
+				res.Labels = append(res.Labels, "rates-changed-while-the-user-was-away")
 			}
 			if sc.ParallelAdmit {
 				fm.userYield, fm.authYield = 300, 300
@@ -499,6 +522,13 @@ func c19Gen(rt *rapid.T) c19Case {
 			sc.Writers[i].Sesh %= sc.Sessions
 		}
 		sc.CloseStormMs = rapid.SampledFrom([]int{1, 500, 2000, 4000}).Draw(rt, "stormat")
+	}
+	if rapid.IntRange(0, 3).Draw(rt, "earlier") == 0 {
+		f := rapid.SampledFrom([]int64{10, 100, 3}).Draw(rt, "earlierfactor")
+		sc.EarlierRx, sc.EarlierTx = sc.RxRate*f, sc.TxRate*f
+		if rapid.IntRange(0, 3).Draw(rt, "earlierlower") == 0 {
+			sc.EarlierRx, sc.EarlierTx = sc.RxRate/f+1, sc.TxRate/f+1
+		}
 	}
 	return sc
 }
